@@ -300,7 +300,7 @@ PROPS = {
     "C18": {
         "lean": ["OxiModel.Props.C18", "OxiModel.Props.C18Roundtrip", "OxiModel.Props.C18Reverse", "OxiModel.Props.C18ReverseBits"],
         "streams": [{"name": "corr-geom", "quick": 60, "thorough": 600}],
-        "oracles": [],
+        "oracles": [{"name": "oracle-geom-e2e", "quick": 1, "thorough": 1}],
         "claim": "Lean 4 theorems for ALL w>=1, h>=1, bpp>=1 (no bound): the scan-line iterator run over data of the header-implied size yields exactly the specification's rows "
                  "(pass by pass: Spec.passDims rows of ceil(width*bpp/8) bytes, pass number, pixel count, empty passes omitted) in both layouts with or without filter bytes - by an invariant "
                  "on the iterator state, the small-image skip conditions shown equal to 'pass empty', and induction on the rows left in a pass; raw_data_size equals the total length of those rows; "
